@@ -818,7 +818,7 @@ func (env *CEnv) call(n *Node) cval {
 		// offsite(s): a browser resolves s to another origin (DESIGN appendix C):
 		// optional leading C0/space, tab/newline/CR ignored, then a scheme
 		// "alpha (alnum|+|-|.)* :" or two slashes/backslashes.
-		return cval{V: Builtin("str.in_re", SBool, env.term(n.Kids[0]), &Term{Op: offsiteRegex, S: "RegLan"})}
+		return cval{V: Builtin("str.in_re", SBool, beforeQuery(env.term(n.Kids[0])), &Term{Op: offsiteRegex, S: "RegLan"})}
 	case "offsite_cleaned":
 		// offsite_cleaned(s): where a browser ends up when s is sent through
 		// net/http.Redirect, which path.Clean-s a scheme-less target first: Clean
@@ -826,7 +826,7 @@ func (env *CEnv) call(n *Node) cval {
 		// browsers) exactly when some surviving segment of the path part starts
 		// with a backslash - over-approximated by "/\" occurring before the
 		// first '?'. Everything offsite(s) covers stays covered.
-		s := env.term(n.Kids[0])
+		s := beforeQuery(env.term(n.Kids[0]))
 		return cval{V: Or(Builtin("str.in_re", SBool, s, &Term{Op: offsiteRegex, S: "RegLan"}),
 			Builtin("str.in_re", SBool, s, &Term{Op: `(re.++ (re.* (re.diff re.allchar (str.to_re "?"))) (str.to_re "/\u{5c}") re.all)`, S: "RegLan"}))}
 	case "implements":
@@ -1199,6 +1199,27 @@ func handlerLayers(env *CEnv, v Value, depth int) string {
 		return funcValueName(x)
 	}
 	return funcValueName(v)
+}
+
+// beforeQuery: for a concatenation with a literal piece that contains '?', the part before
+// that '?'. Both off-site languages are decided by the text before the first '?': none of
+// the characters their mandatory prefix is made of is '?', what follows the prefix is
+// arbitrary, and the "/\\" of the cleaned form must lie before the first '?'. So membership
+// of a ++ "?" ++ rest equals membership of a, and the solver is spared a regular-language
+// argument about a concatenation with an uninterpreted query string.
+func beforeQuery(t *Term) *Term {
+	if t.Sym || t.Op != "str.++" {
+		return t
+	}
+	for i, a := range t.Args {
+		if lit, ok := a.StrVal(); ok {
+			if j := strings.IndexByte(lit, '?'); j >= 0 {
+				parts := append(append([]*Term(nil), t.Args[:i]...), StrLit(lit[:j]))
+				return StrCat(parts...)
+			}
+		}
+	}
+	return t
 }
 
 const offsiteRegex = `(re.++ (re.* (re.range "\u{0}" "\u{20}")) ` +
